@@ -1098,10 +1098,14 @@ class StackGlobal(NoOp):
             module = module.value
         if isinstance(attr, ast.Constant):
             attr = attr.value
-        if isinstance(attr, str):
-            imported_name, reference = qualified_name_reference(attr)
-        else:
-            imported_name, reference = attr, ast.Name(attr, ast.Load())
+        if not isinstance(module, str) or not isinstance(attr, str):
+            # the pickle VM has the same rule ("STACK_GLOBAL requires str"); a name that is not a
+            # string constant cannot be written as an import statement
+            raise ValueError(
+                "STACK_GLOBAL requires the module and the attribute name to be string constants, "
+                f"not {module!r} and {attr!r}"
+            )
+        imported_name, reference = qualified_name_reference(attr)
         if module in ("__builtin__", "__builtins__", "builtins"):
             # no need to emit an import for builtins!
             pass
